@@ -31,6 +31,7 @@ class CloudModel:
         self.registry = dict(registry or {})
         self.tokenlist_override = None   # callable(udpid) -> list of entries, for crafted lists
         self.invent_unknown = False      # True: unknown udpids get a bogus (token, key) like the real cloud
+        self.list_all = False            # True: every getToken answer lists all registered entries (an account with several devices)
         self.login_ids = {}              # account -> loginId
         self.sessions = {}               # sessionId -> account
         self.requests = []               # (path, form dict, outcome)
@@ -105,6 +106,11 @@ class CloudModel:
             u = form.get("udpid", "")
             if self.tokenlist_override is not None:
                 lst = self.tokenlist_override(u)
+            elif self.list_all:
+                lst = [{"udpId": k, "token": v[0], "key": v[1]} for k, v in self.registry.items()]
+                if u not in self.registry and self.invent_unknown:
+                    lst.insert(len(lst) // 2, {"udpId": u, "token": hashlib.sha512(("t" + u).encode()).hexdigest(),
+                                               "key": hashlib.sha256(("k" + u).encode()).hexdigest()})
             elif u in self.registry:
                 lst = [{"udpId": u, "token": self.registry[u][0], "key": self.registry[u][1]}]
             elif self.invent_unknown:
